@@ -266,11 +266,45 @@ class Interp(Engine):
         for s in stmts:
             self.exec_stmt(s)
 
+    stepwise = None
+    stepwise_facts = []
+
     def exec_stmt(self, s):
         m = getattr(self, "st_" + type(s).__name__, None)
         if m is None:
             raise Unsupported("statement %s" % type(s).__name__)
-        return m(s)
+        if not self.stepwise or self.spec_mode or not isinstance(s, ast.If):
+            return m(s)
+        # ghost stepwise-conserved quantities (loop contract `stepwise`): prove e_after == e_before for this
+        # statement as a small obligation of its own, then keep the equality as a fact for the loop-step VC
+        before = [self.stepwise_value(e) for e in self.stepwise]
+        npc = len(self.st.pc)
+        r = m(s)
+        for i, e in enumerate(self.stepwise):
+            a, b = before[i], self.stepwise_value(e)
+            if a is None or b is None or a.eq(b):
+                continue
+            # local obligation: only the facts introduced by this statement are needed
+            saved_pc = self.st.pc
+            self.st.pc = saved_pc[npc:]
+            try:
+                self.emit("%s#stepwise.%d[%s]" % (self.cur_func, i, e[:30]), a == b, meta={"kind": "loop-step"})
+            finally:
+                self.st.pc = saved_pc
+            self.stepwise_facts.append(a == b)
+        return r
+
+    def stepwise_value(self, e):
+        try:
+            self.spec_mode += 1
+            self.spec_envs.append({})
+            try:
+                return self.term(self.ev(ast.parse(e, mode="eval").body))
+            finally:
+                self.spec_envs.pop()
+                self.spec_mode -= 1
+        except (Unsupported, KeyError):
+            return None
 
     def st_Pass(self, s):
         pass
